@@ -33,7 +33,8 @@ FAULTS = [
     ('undefined', 'addi x5, x5, %offset(nowhere_24)'), ('undefined', 'pack <I UNDEFINED_25'), ('undefined', 'c.j %offset(nowhere_26)'),
     ('undefined', 'KDEF_27 = UNDEFINED_27 + 1'), ('undefined', 'bnez x8, nowhere_28'), ('undefined', 'tail nowhere_29'),
     ('malformed', 'addi x5, x5, 1 +'), ('malformed', 'lui x5, %hi('), ('malformed', 'addi x5, x5, %lo('), ('malformed', 'addi x5, x5, (1'),
-    ('malformed', 'KBAD_31 = 3 *'), ('malformed', 'KOFF_33 = %offset({label})'), ('malformed', 'KPOS_34 = %position({label}, 4)'), ('malformed', 'dw 1 2 +'), ('malformed', 'addi x5, x5, %offset'), ('malformed', 'li x5, )('),
+    ('malformed', 'li x5, 1 << -1'), ('malformed', 'KNEG_35 = 1 >> (4 - 5)'), ('malformed', 'dw [1][2]'), ('malformed', 'dw {}[0]'),
+    ('malformed', 'addi x5, x5, 1 // 0'), ('malformed', 'dw 2 ** -1'), ('malformed', 'KBAD_31 = 3 *'), ('malformed', 'KOFF_33 = %offset({label})'), ('malformed', 'KPOS_34 = %position({label}, 4)'), ('malformed', 'dw 1 2 +'), ('malformed', 'addi x5, x5, %offset'), ('malformed', 'li x5, )('),
     ('malformed', 'addi x5, x5'), ('malformed', 'add x5, x6'), ('malformed', 'frobnicate x5, x6'), ('malformed', 'beq x5, x6'),
     ('malformed', 'bytes 1 zz'), ('malformed', 'align four'), ('malformed', 'lw x5'), ('malformed', 'sw x5, x6'),
     ('nonint', 'addi x5, x5, 1/2'), ('nonint', 'KF_41 = 1.5'), ('nonint', 'li x5, 2.0'), ('nonint', 'dw 3/4'), ('nonint', 'bytes 1.5 2'),
@@ -233,9 +234,9 @@ def judge(case, res):
         res.sample({'fault': case['fault'], 'class': case['cls'], 'compress': comp, 'include_depth': stats['depth'], 'main.asm': main_text[:300]})
 
 
-def shard(n, s):
+def shard(n, s, shrink=False):
     res = env.Result()
-    env.run_hypothesis(judge, cases((s * 7) % len(FAULTS)), n, env.derive(env.seed_value(), PROP, s), res, env.load_known(), PROP, shrink=True, max_rounds=30)
+    env.run_hypothesis(judge, cases((s * 7) % len(FAULTS)), n, env.derive(env.seed_value(), PROP, s), res, env.load_known(), PROP, shrink=shrink, max_rounds=30)
     return res
 
 
@@ -248,7 +249,7 @@ def run(tier):
                 'planted line; CLI: exit status 1, File "<path>", line N, no traceback. A fault the assembler does not refuse is '
                 'counted (premise false). non-trivial = every refused planted fault; distinct by (fault, tree, mode)' % len(FAULTS))
     per = max(1, N[tier] // env.NPROC)
-    chk.merge(env.run_shards(shard, [(per, s) for s in range(env.NPROC)]))
+    chk.merge(env.run_shards(shard, [(per, s, tier == 'thorough') for s in range(env.NPROC)]))   # shrinking file trees is slow: thorough only
     return chk.finish()
 
 
